@@ -816,6 +816,11 @@ class Configuration(_Configuration):
         if not self.dispatch(name):
             return False
 
+        # dispatch() also returns on the '}' closing a section: at the top of the file there is none
+        # to close, and the rest of the file was silently left unread
+        if name == 'root' and self.parser.end == '}':
+            return self.error.set('closing too many parenthesis')
+
         instance = self._structure[name].get('class', None)
         if instance is not None:
             instance.post()
